@@ -150,6 +150,39 @@ static void op_bitmap_hist(const VhLine *l) {
                 mon("C08", "remove(%" PRIu64 ") reported %d but the value was %s", a0, rep, rx->bit[a0] ? "present" : "absent");
             }
             rx->bit[a0] = 0;
+        } else if (strncmp(op, "druns", 5) == 0) {
+            /* druns:s1-l1,s2-l2,... : X := deserialise(a well-formed RUNS container with SEVERAL runs) - the only way
+             * such a container comes into being; whatever is done to it afterwards must treat it as the set it is */
+            uint8_t wire[9 + 4 * 64];
+            uint32_t nr = 0, card = 0;
+            memset(rx, 0, sizeof(*rx));
+            const char *q = strchr(op, ':');
+            while (q && *q && nr < 64) {
+                char *e2 = NULL;
+                unsigned long st = strtoul(q + 1, &e2, 16);
+                unsigned long ln = (*e2 == '-') ? strtoul(e2 + 1, &e2, 16) : 0;
+                uint16_t s16 = (uint16_t)st, l16 = (uint16_t)ln;
+                memcpy(wire + 9 + 4 * nr, &s16, 2);
+                memcpy(wire + 9 + 4 * nr + 2, &l16, 2);
+                for (unsigned long v = st; v < st + ln && v < 65536; v++) {
+                    rx->bit[v] = 1;
+                }
+                card += (uint32_t)ln;
+                nr++;
+                q = (*e2 == ',') ? e2 : NULL;
+            }
+            wire[0] = 2;
+            memcpy(wire + 1, &card, 4);
+            memcpy(wire + 5, &nr, 4);
+            uint8_t *e = exact_copy(wire, 9 + 4 * (size_t)nr);
+            varintBitmap *d = varintBitmapDecode(e, 9 + 4 * (size_t)nr);
+            free(e);
+            if (d) {
+                varintBitmapFree(*X);
+                *X = d;
+            } else {
+                mon("C08", "deserialising a well-formed %u-run container failed", nr);
+            }
         } else if (strcmp(op, "clear") == 0) {
             varintBitmapClear(*X);
             memset(rx, 0, sizeof(*rx));
